@@ -230,6 +230,32 @@ Section Dialect.
     destruct (mem_str (py_upper kw) (readonly_keywords ero)) eqn:M; [apply mem_str_In in M; contradiction|].
     apply mem_str_In in H4. rewrite H4. reflexivity.
   Qed.
+
+  (* how a read-only verdict is reached: WITH prefixes are skipped by _skip_cte, then a read-only keyword,
+     or SELECT without INTO before FROM (both on the stripped text) *)
+  Inductive ro_chain : str -> Prop :=
+  | rc_ro s kw rest : match_kw (skip_ws s) = Some (kw, rest) -> In (py_upper kw) (readonly_keywords ero) -> ro_chain s
+  | rc_select s kw rest : match_kw (skip_ws s) = Some (kw, rest) -> py_upper kw = $"SELECT" ->
+      check_select_into rest = false -> ro_chain s
+  | rc_with s kw rest : match_kw (skip_ws s) = Some (kw, rest) -> py_upper kw = $"WITH" ->
+      ro_chain (skip_cte rest) -> ro_chain s.
+
+  Lemma classify_chain : forall n s, classify_fuel ero ewr n s = Some true -> ro_chain s.
+  Proof.
+    induction n as [|n IH]; intros s; cbn [classify_fuel]; [discriminate|].
+    destruct (skip_ws s) as [|c r] eqn:E; [discriminate|].
+    destruct (match_kw (c :: r)) as [[kw rest]|] eqn:M; [|discriminate].
+    rewrite <- E in M.
+    destruct (str_eqb_spec (py_upper kw) $"WITH") as [W|_].
+    - intro H. eapply rc_with; [exact M|exact W|apply IH, H].
+    - destruct (str_eqb_spec (py_upper kw) $"SELECT") as [S|_].
+      + intro H. eapply rc_select; [exact M|exact S|]. destruct (check_select_into rest); [discriminate|reflexivity].
+      + destruct (mem_str (py_upper kw) (readonly_keywords ero)) eqn:R.
+        * intros _. eapply rc_ro; [exact M|apply mem_str_In, R].
+        * destruct (mem_str (py_upper kw) (write_keywords ewr)); discriminate.
+  Qed.
+  Lemma is_readonly_chain sql : is_readonly_sql ero ewr sql = Some true -> ro_chain (strip_quoted sql).
+  Proof. intro H. apply is_readonly_true in H as [_ H]. eapply classify_chain, H. Qed.
 End Dialect.
 
 (* ---------------------------------------------------------------- the handler's combination of the arguments *)
